@@ -196,19 +196,23 @@ func c13Mutate(t *rapid.T, kind string, top *gen.Node, s *gen.Stream) (der []byt
 	case "ppid-short":
 		top.Kids[0].Kids[1] = gen.Octet(oct(15))
 	case "ppid-long":
-		top.Kids[0].Kids[1] = gen.Octet(oct(17))
+		// one byte too long, or too long by a multiple of 256 (a length compared in 8 bits would call it right), or doubled
+		top.Kids[0].Kids[1] = gen.Octet(oct(16 + rapid.SampledFrom([]int{1, 1, 256, 512, 4096, 16}).Draw(t, "tooLongBy")))
 	case "pceid-short":
 		top.Kids[2].Kids[1] = gen.Octet(oct(1))
 	case "pceid-long":
-		top.Kids[2].Kids[1] = gen.Octet(oct(3))
+		// one byte too long, or too long by a multiple of 256 (a length compared in 8 bits would call it right), or doubled
+		top.Kids[2].Kids[1] = gen.Octet(oct(2 + rapid.SampledFrom([]int{1, 1, 256, 512, 4096, 2}).Draw(t, "tooLongBy")))
 	case "fmspc-short":
 		top.Kids[3].Kids[1] = gen.Octet(oct(5))
 	case "fmspc-long":
-		top.Kids[3].Kids[1] = gen.Octet(oct(7))
+		// one byte too long, or too long by a multiple of 256 (a length compared in 8 bits would call it right), or doubled
+		top.Kids[3].Kids[1] = gen.Octet(oct(6 + rapid.SampledFrom([]int{1, 1, 256, 512, 4096, 6}).Draw(t, "tooLongBy")))
 	case "cpusvn-short":
 		tcb.Kids[17].Kids[1] = gen.Octet(oct(15))
 	case "cpusvn-long":
-		tcb.Kids[17].Kids[1] = gen.Octet(oct(17))
+		// one byte too long, or too long by a multiple of 256 (a length compared in 8 bits would call it right), or doubled
+		tcb.Kids[17].Kids[1] = gen.Octet(oct(16 + rapid.SampledFrom([]int{1, 1, 256, 512, 4096, 16}).Draw(t, "tooLongBy")))
 	case "ppid-wrong-type-right-length", "pceid-wrong-type-right-length", "fmspc-wrong-type-right-length", "cpusvn-wrong-type-right-length":
 		// the content has exactly the expected number of bytes, only the ASN.1 type is not OCTET STRING
 		tag := rapid.SampledFrom([]byte{0x0c, 0x13, 0x16, 0x03, 0x02, 0x80, 0x30, 0x05 | 0x40}).Draw(t, "tag")
@@ -370,8 +374,40 @@ func TestC13(t *testing.T) {
 			}
 			gen.Class("octet-fields-in-legacy-wrapped-form")
 		}
+		// further members the decoder does not know, with object identifiers NEAR the known ones (children of a known
+		// member, siblings whose dotted text merely starts like a known one, higher arcs) and values shaped like the real
+		// ones: they may be ignored or refused, but they must never stand in for the real PPID / TCB / PCE-ID / FMSPC
+		extras := false
+		if rapid.IntRange(0, 3).Draw(t, "unknownNeighbours") == 0 {
+			extras = true
+			pre := []int{1, 2, 840, 113741, 1, 13, 1}
+			nearTop := [][]int{{4, 1}, {1, 1}, {3, 7}, {2, 18}, {40}, {14}, {10}, {9}, {255}}
+			for k, n := 0, rapid.IntRange(1, 3).Draw(t, "nExtras"); k < n; k++ {
+				arcs := rapid.SampledFrom(nearTop).Draw(t, "extraOid")
+				oid := append(append([]int{}, pre...), arcs...)
+				if rapid.IntRange(0, 3).Draw(t, "textPrefix") == 0 {
+					// 1.2.840.113741.1.13.1x.y : the dotted text starts like 1.2.840.113741.1.13.1 but the arc is another one
+					oid = []int{1, 2, 840, 113741, 1, 13, rapid.SampledFrom([]int{10, 14, 19, 100}).Draw(t, "arc7"), rapid.IntRange(1, 4).Draw(t, "arc8")}
+				}
+				vb := s.Bytes(rapid.SampledFrom([]int{6, 2, 16}).Draw(t, "extraSize"))
+				vb[0] |= 0x10
+				val := gen.Octet(vb)
+				m := gen.Seq(gen.OID(oid...), val)
+				if rapid.Bool().Draw(t, "extraLast") {
+					top.Kids = append(top.Kids, m)
+				} else {
+					top.Kids = append([]*gen.Node{m}, top.Kids...)
+				}
+			}
+			gen.Class("unknown-members-near-the-known-ones")
+		}
 		order := "canonical"
-		switch rapid.IntRange(0, 5).Draw(t, "order") {
+		orderKind := rapid.IntRange(0, 5).Draw(t, "order")
+		if extras {
+			orderKind = 0 // the positions of the known members are no longer the canonical ones
+			order = "with-unknown-members"
+		}
+		switch orderKind {
 		case 1, 2:
 			top.Kids = gen.Permute(top.Kids, rapid.Permutation(seqInts(len(top.Kids))).Draw(t, "topperm"))
 			order = "top-permuted"
@@ -409,7 +445,7 @@ func TestC13(t *testing.T) {
 			gen.Fail(t, gen.Violation{Key: "panic@" + gen.PanicSite(vd.Stack), Oracle: "extraction returns values or an error", Detail: vd.Panic, Replay: rp})
 			return
 		}
-		if !vd.Accepted() && wrapped {
+		if !vd.Accepted() && (wrapped || extras) {
 			// whether the legacy wrapped form is understood at all is the implementation's choice; what it extracts must be right
 			gen.Class("legacy-wrapped-form-rejected")
 			return
